@@ -7,6 +7,7 @@ package main
 import (
 	"go/token"
 	"go/types"
+	"sort"
 	"strings"
 
 	"golang.org/x/tools/go/ssa"
@@ -70,11 +71,19 @@ func onlyUsedAsScrubArg(v ssa.Value) bool {
 func ruleErrorsBeforeData(fnNames ...string) ruleFn {
 	return func(r *Run) {
 		n := 0
+		// every function of the packages the confirmed instances live in: a phase split out
+		// of one of them carries the obligation with it
+		pkgs := map[string]bool{}
 		for _, name := range fnNames {
-			fn := r.Anchor("R13i.errors", name)
-			if fn == nil {
+			if fn := r.Anchor("R13i.errors", name); fn != nil {
+				pkgs[topFn(fn).Pkg.Pkg.Path()] = true
+			}
+		}
+		for _, fn := range r.P.Funcs {
+			if topFn(fn).Pkg == nil || !pkgs[topFn(fn).Pkg.Pkg.Path()] {
 				continue
 			}
+			name := fnName(fn)
 			reads := respReads(fn)
 			for _, rd := range reads {
 				if rd.field != "Data" {
@@ -211,15 +220,37 @@ func isEqNeq(i *ssa.If) bool {
 // number was compared with the number of requests sent.
 func ruleCountCheck(r *Run) {
 	const rule = "R13i.count"
-	name := "executor.(*DepthExecutor).executeRequests"
-	fn := r.Anchor(rule, name)
-	if fn == nil {
-		return
-	}
+	// every executor function that invokes Queryer.Query (today: executeRequests)
 	n := 0
+	for _, fn := range r.P.Funcs {
+		if topFn(fn).Pkg == nil || shortPkg(topFn(fn).Pkg.Pkg.Path()) != "executor" {
+			continue
+		}
+		n += r.countCheckIn(fn)
+	}
+	r.AtLeast(rule, "Queryer.Query calls in the executor", n, 1)
+}
+
+func (r *Run) countCheckIn(fn *ssa.Function) int {
+	const rule = "R13i.count"
+	name := fnName(fn)
+	n := 0
+	// the same list: the same SSA value, or two loads of one field that fn never writes
+	sameList := func(a, b ssa.Value) bool {
+		a, b = unwrap(a), unwrap(b)
+		if a == b {
+			return true
+		}
+		if ua, ok := a.(*ssa.UnOp); ok && ua.Op == token.MUL {
+			if fa, ok := ua.X.(*ssa.FieldAddr); ok && !fieldWrittenIn(fn, fa) {
+				return sameValue(a, b)
+			}
+		}
+		return false
+	}
 	for _, ins := range allInstrs(fn) {
 		call, ok := ins.(*ssa.Call)
-		if !ok || !call.Call.IsInvoke() || call.Call.Method.Name() != "Query" {
+		if !ok || !call.Call.IsInvoke() || call.Call.Method.Name() != "Query" || !strings.HasSuffix(calleeName(&call.Call), "queryer.Queryer).Query") {
 			continue
 		}
 		n++
@@ -251,7 +282,7 @@ func ruleCountCheck(r *Run) {
 					return false
 				}
 				b, ok := c.Call.Value.(*ssa.Builtin)
-				return ok && b.Name() == "len" && unwrap(c.Call.Args[0]) == of
+				return ok && b.Name() == "len" && sameList(c.Call.Args[0], of)
 			}
 			if (lenOf(bo.X, resps) && lenOf(bo.Y, req)) || (lenOf(bo.Y, resps) && lenOf(bo.X, req)) {
 				if bo.Op == token.NEQ {
@@ -287,18 +318,54 @@ func ruleCountCheck(r *Run) {
 			r.Bad(rule, name, "responses consumed after count check", at, "the response list of Queryer.Query is indexed/ranged without first comparing its length with the number of requests sent: a short or long answer is not detected")
 		}
 	}
-	r.AtLeast(rule, "Queryer.Query calls in executeRequests", n, 1)
+	return n
 }
 
 // ruleNodeChecks: in parseRespones, the `node` entry is looked up with comma-ok and both
 // the presence test and the type test lead to an error return.
 func ruleNodeChecks(r *Run) {
 	const rule = "R13i.node"
-	name := "executor.(*DepthExecutor).parseRespones$1"
-	fn := r.Anchor(rule, name)
-	if fn == nil {
+	top := r.Anchor(rule, "executor.(*DepthExecutor).parseRespones")
+	if top == nil {
 		return
 	}
+	// the unwrapping may sit in the per-response closure or in a helper it calls: look at
+	// every executor function reachable from parseRespones; a helper reports the failure
+	// through its own error result, whose propagation by the caller is R6's obligation
+	var region []*ssa.Function
+	for g := range r.P.CG.Reachable([]*ssa.Function{top}, nil) {
+		if topFn(g).Pkg == topFn(top).Pkg {
+			region = append(region, g)
+		}
+	}
+	sort.Slice(region, func(i, j int) bool { return fnName(region[i]) < fnName(region[j]) })
+	nLookup, nAssert := 0, 0
+	for _, fn := range region {
+		a, b := r.nodeChecksIn(fn)
+		nLookup += a
+		nAssert += b
+	}
+	r.AtLeast(rule, "node lookups", nLookup, 1)
+	r.AtLeast(rule, "node type assertions", nAssert, 1)
+}
+
+// isNodeValue: v is the value read from a map under the constant key "node".
+func isNodeValue(v ssa.Value) bool {
+	v = unwrap(v)
+	if ex, ok := v.(*ssa.Extract); ok {
+		v = ex.Tuple
+	}
+	lk, ok := v.(*ssa.Lookup)
+	if !ok {
+		return false
+	}
+	c, isConst := lk.Index.(*ssa.Const)
+	return isConst && c.Value != nil && c.Value.ExactString() == `"node"`
+}
+
+func (r *Run) nodeChecksIn(fn *ssa.Function) (int, int) {
+	const rule = "R13i.node"
+	name := fnName(fn)
 	hasErr := func(ret *ssa.Return) bool {
 		for i, res := range retVals(ret) {
 			if isErrorish(fn.Signature.Results().At(i).Type()) && !isNilConst(unwrap(res)) {
@@ -356,7 +423,7 @@ func ruleNodeChecks(r *Run) {
 				r.Bad(rule, name, `lookup "node"`, r.P.pos(x.Pos()), "missing node key: "+why)
 			}
 		case *ssa.TypeAssert:
-			if _, isMap := x.AssertedType.Underlying().(*types.Map); !isMap || !x.CommaOk {
+			if _, isMap := x.AssertedType.Underlying().(*types.Map); !isMap || !x.CommaOk || !isNodeValue(x.X) {
 				continue
 			}
 			nAssert++
@@ -377,6 +444,5 @@ func ruleNodeChecks(r *Run) {
 			}
 		}
 	}
-	r.AtLeast(rule, "node lookups", nLookup, 1)
-	r.AtLeast(rule, "node type assertions", nAssert, 1)
+	return nLookup, nAssert
 }
